@@ -7,7 +7,7 @@ import vlib
 ROUTES_QUICK = {"MC_Heap_cell": 7, "MC_Heap_chan": 7, "MC_Heap_move": 8, "MC_Heap_stack": 8}
 ROUTES_THOROUGH = {"MC_Heap_cell": 9, "MC_Heap_chan": 9, "MC_Heap_move": 10, "MC_Heap_stack": 11}
 MUTANTS = {"MC_Heap_mut_nofull": "Isolation", "MC_Heap_mut_norooted": "NoDangling", "MC_Heap_mut_cellnoclone": "Isolation",
-           "MC_Heap_spawnon": "Isolation"}
+           "MC_Heap_spawnon": "Isolation", "MC_Heap_mut_sweepgap": "NoDangling"}
 
 # which replay violation classes belong to which property
 C05_KEYS = ("dangling", "walk-dangling", "not-reclaimed", "stack-length", "identity")
@@ -202,6 +202,39 @@ def run_common(pid, tier, mine, level_text_extra=""):
                     V.violation(tag + key, "%s (step %d of the walk)" % (text, step), {"walk": j["walk"], "stress": j["stress"], "step": step})
                 else:
                     V.divergence(key)
+    # Collect is one atomic step for the whole subtree (Heap.tla; the mutant "sweepgap" shows what happens otherwise):
+    # on the VM, the root collects in a loop while its children compute on their own OS threads
+    pc_rounds = 0
+    if pid == "C05":
+        import random
+        rnd = random.Random(seed)
+        PC_PROG = ("let list @ { List } = import! std.list\nlet array = import! std.array.prim\n"
+                   "rec let build n acc = if n == 0 then acc else build (n - 1) (Cons (n + array.len [n]) acc)\n"
+                   "rec let sum l acc =\n    match l with\n    | Cons x r -> sum r (acc + x)\n    | Nil -> acc\n"
+                   "rec let go k acc = if k == 0 then acc else go (k - 1) (acc + sum (build %d Nil) 0)\ngo %d 0\n")
+        pj = []
+        for k in range(6 if tier == "quick" else 60):
+            n, reps = rnd.choice([(300, 100), (50, 400), (1000, 30)])
+            prog = PC_PROG % (n, reps)
+            pj.append({"id": k, "modules": [], "threads": [[prog]] * rnd.choice([2, 3, 4]), "parent_collects": True, "warmup": [prog], "expect": str(reps * (n * (n + 1) // 2 + n))})
+        pr = vlib.run_pool(["par"], [{k: v for k, v in j.items() if k != "expect"} for j in pj], workers=3, job_timeout=180)
+        for j in pj:
+            r = pr.get(j["id"])
+            if r is None:
+                continue
+            pc_rounds += 1
+            rep_ = {"par_job": {k: v for k, v in j.items() if k != "expect"}, "expect": j["expect"]}
+            if r.get("status") in ("hang", "crash"):
+                again = [vlib.run_pool(["par"], [{k: v for k, v in j.items() if k != "expect"}], workers=1, job_timeout=180).get(j["id"], {}).get("status") for _ in range(2)]
+                if r["status"] in again:
+                    V.violation("parent-collects:%s" % r["status"], "the root collects while %d children run on their own OS threads: %s (reproduced) %s" % (len(j["threads"]), r["status"], r.get("msg", "")[-300:]), rep_)
+                continue
+            if r.get("dangling"):
+                V.violation("parent-collects:dangling", "%d freed objects reachable after the round" % r["dangling"], rep_)
+            for rs in r["results"]:
+                o = rs[0] if isinstance(rs, list) else {"status": rs, "value": ""}
+                if (o["status"], o["value"]) != ("ok", j["expect"]):
+                    V.violation("parent-collects:wrong-result", "a child computing while the root collects gave %s %s, expected %s" % (o["status"], o["value"], j["expect"]), rep_)
     rc = V.finish()
     samples = [[[s["op"], s["t"], s["a"], s["b"], s["res"]] for s in j["walk"]] for j in jobs[:2]]
     vlib.write_evidence(pid, tier, "model_checking", {
@@ -210,6 +243,7 @@ def run_common(pid, tier, mine, level_text_extra=""):
         "samples": samples,
         "evaluations": replayed, "distinct_nontrivial": len(classes),
         "rule": "TLC -simulate walks of Heap.tla (14 steps, 6 objects, 4 threads, 2 VMs%s) replayed on real VMs, each also under collect-at-every-allocation for a quarter of them; distinct_nontrivial counts distinct (transfer route, copy-or-share, thread tree shape) classes in which a value crossed heaps" % ("; 30 steps / 8 objects in the long runs" if tier == "thorough" else ""),
+        "parent_collects_rounds": pc_rounds,
         "walks_with_transfer": nontrivial, "trap_walks": {k: len(v) for k, v in tw.items()},
         "model_configs": info,
         "spec_mutants_rejected_by": mut,
@@ -224,6 +258,14 @@ def run_common(pid, tier, mine, level_text_extra=""):
 
 def replay_file(pid, path):
     d = json.load(open(path))["replay"]
+    if "par_job" in d:
+        r = vlib.run_pool(["par"], [d["par_job"]], workers=1, job_timeout=180).get(d["par_job"]["id"], {})
+        print(json.dumps(r)[:1500])
+        bad = r.get("status") != "ok" or r.get("dangling") or any((rs[0]["status"], rs[0]["value"]) != ("ok", d["expect"]) for rs in r.get("results", []))
+        if bad:
+            print("VIOLATION property=%s replay=%s" % (pid, path))
+            return 1
+        return 0
     if "walk" not in d:
         print("model-level violation; see the trace in the replay file")
         print("VIOLATION property=%s replay=%s" % (pid, path))
